@@ -35,17 +35,28 @@ def purpose_of(remote_node_id, epr_socket_id):
     return remote_node_id * 1000 + epr_socket_id
 
 
+class InjectedFault(Exception):
+    """raised by the fake network stack when the harness asked for a fault at the next call"""
+
+
 class RecordingStack(BaseNetworkStack):
     def __init__(self):
         self.requests = []
+        self.fail_next = None      # "put" | "purpose": the next such call raises
 
     def put(self, request):
+        if self.fail_next == "put":
+            self.fail_next = None
+            raise InjectedFault("network stack refuses the request")
         self.requests.append(request)
 
     def setup_epr_socket(self, epr_socket_id, remote_node_id, remote_epr_socket_id, timeout=1.0):
         pass
 
     def get_purpose_id(self, remote_node_id, epr_socket_id):
+        if self.fail_next == "purpose":
+            self.fail_next = None
+            raise InjectedFault("network stack does not know the socket")
         # depends on BOTH the remote node and the local socket id (injective per remote node)
         return purpose_of(remote_node_id, epr_socket_id)
 
@@ -56,7 +67,7 @@ class SteppingExecutor(Executor):
 
     @property
     def node_id(self):
-        return NODE_ID
+        return getattr(self, "_verif_node_id", NODE_ID)
 
     def _do_wait(self):
         yield "wait"
@@ -69,9 +80,11 @@ class SteppingExecutor(Executor):
         yield from super()._execute_command(subroutine_id, command)
 
 
-def new_executor():
-    SharedMemoryManager.reset_memories()
-    ex = SteppingExecutor(name="verif-node")
+def new_executor(name="verif-node", node_id=NODE_ID, reset=True):
+    if reset:
+        SharedMemoryManager.reset_memories()
+    ex = SteppingExecutor(name=name)
+    ex._verif_node_id = node_id
     ex.network_stack = RecordingStack()
     return ex
 
@@ -126,7 +139,7 @@ class SubProg:
         self.emit("set Q%d %d" % (self.rb, v), {"a": "nop"})
         self.emit("qfree Q%d" % self.rb, {"a": "qfree", "v": v})
 
-    def op_create(self, req, q, args, res):
+    def op_create(self, req, q, args, res, rejected=None):
         self.set(0, req.remote)
         self.set(1, req.purpose)
         if q is not None:
@@ -134,18 +147,26 @@ class SubProg:
         self.set(3, args)
         self.set(4, res)
         qreg = self.R(2) if q is not None else "C15"
+        if rejected:
+            self.emit("create_epr %s %s %s %s %s" % (self.R(0), self.R(1), qreg, self.R(3), self.R(4)),
+                      {"a": "rejected", "where": rejected})
+            return
         self.emit("create_epr %s %s %s %s %s" % (self.R(0), self.R(1), qreg, self.R(3), self.R(4)),
                   {"a": "create", "remote": req.remote, "purpose": purpose_of(req.remote, req.purpose),
                    "isK": req.ty == "K",
                    "number": req.number, "q": q, "res": res})
 
-    def op_recv(self, req, q, res):
+    def op_recv(self, req, q, res, rejected=None):
         self.set(0, req.remote)
         self.set(1, req.purpose)
         if q is not None:
             self.set(2, q)
         self.set(4, res)
         qreg = self.R(2) if q is not None else "C15"
+        if rejected:
+            self.emit("recv_epr %s %s %s %s" % (self.R(0), self.R(1), qreg, self.R(4)),
+                      {"a": "rejected", "where": rejected})
+            return
         self.emit("recv_epr %s %s %s %s" % (self.R(0), self.R(1), qreg, self.R(4)),
                   {"a": "recv", "remote": req.remote, "purpose": purpose_of(req.remote, req.purpose), "q": q,
                    "res": res})
@@ -234,6 +255,7 @@ class Scenario:
         self.subs = []      # SubProg
         self.resps = []     # RespSpec
         self.malformed = False
+        self.fault = None
 
     def desc(self):
         """JSON form, complete (see `from_desc`)"""
@@ -260,7 +282,7 @@ class Scenario:
         return sc
 
 
-def gen_scenario(rng, max_reqs=3, max_pairs=3, small=False, malformed=False, mixed_roles=False):
+def gen_scenario(rng, max_reqs=3, max_pairs=3, small=False, malformed=False, mixed_roles=False, faults=False):
     """Well-formed scenarios (malformed=False) never make the executor raise: subroutines of one
     application own disjoint virtual qubit ids, a request's qubits are freed before a later request of the
     same subroutine reuses them, response types match the request type, result arrays are long enough."""
@@ -371,6 +393,48 @@ def gen_scenario(rng, max_reqs=3, max_pairs=3, small=False, malformed=False, mix
         for req in sp.reqs:
             if not req._waited and not (malformed and rng.random() < 0.5):
                 _final_wait(sp, req, rng)
+    if faults:
+        # fault at the environment boundary: one more subroutine whose create/recv instruction dies inside
+        # the network stack (`put` refuses the request, or `get_purpose_id` raises). The link layer never
+        # saw that request, so no response exists for it; the other subroutines go on using the same socket.
+        creates = [(sp, r) for sp in sc.subs for r in sp.reqs if r.role == "create"]
+        target = rng.choice(creates) if creates and rng.random() < 0.8 else None
+        app = target[0].app if target else rng.choice(list(sc.apps))
+        if persub[app] <= 2:
+            fsp = SubProg(app, 5 * persub[app])
+            persub[app] += 1
+            if target:
+                role, ty, remote, purpose = "create", target[1].ty, target[1].remote, target[1].purpose
+            else:
+                role, ty = rng.choice(["create", "recv"]), "M"
+                remote, purpose = rng.choice(keys)
+            where = "put" if role == "create" and rng.random() < 0.7 else "purpose"
+            nq = sc.apps[app]
+            number = rng.randint(1, min(2, nq))
+            vids = rng.sample(range(nq), number) if ty == "K" else None
+            freq = Req(role, ty, remote, purpose, number, vids)
+            q = None
+            if ty == "K":
+                q = next_addr[app]
+                next_addr[app] += 1
+                fsp.op_array(q, number)
+                for j, v in enumerate(vids):
+                    fsp.op_store(q, j, v)
+            res = next_addr[app]
+            next_addr[app] += 1
+            fsp.op_array(res, OK_FIELDS_K * number)
+            if role == "create":
+                args = next_addr[app]
+                next_addr[app] += 1
+                fsp.op_array(args, 20)
+                fsp.op_store(args, 0, 0 if ty == "K" else 1)
+                fsp.op_store(args, 1, number)
+                fsp.op_create(freq, q, args, res, rejected=where)
+            else:
+                fsp.op_recv(freq, q, res, rejected=where)
+            fsp.op_wait("all", res, 0, OK_FIELDS_K * number)      # never reached
+            sc.subs.insert(rng.randrange(len(sc.subs) + 1), fsp)
+            sc.fault = where
     # stray responses (no request), sometimes
     if rng.random() < (0.5 if malformed else 0.15):
         remote, purpose = rng.choice(keys + [(3, 0)])
@@ -467,7 +531,7 @@ def canon_real(ex, uid2idx):
                     (e.subroutine_id, e.ent_results_array_address, e.q_array_address, e.tot_pairs, e.pairs_left)
                     for e in lst]
     return {"apps": apps, "used": sorted(ex._used_physical_qubit_addresses), "queues": queues,
-            "pending": [uid2idx[r.create_id] for r in ex._pending_epr_responses],
+            "pending": [uid2idx.get(r.create_id, -1) for r in ex._pending_epr_responses],
             "subs": {sid: s.app_id for sid, s in sorted(ex._subroutines.items())}}
 
 
@@ -496,9 +560,26 @@ class Oracle:
         self.last_left = {}          # id(obj) -> pairs_left after the previous action
         self.violations = []
         self.mixed = False
+        self.known_uids = {r.uid for r in sc.resps}
+        self.foreign_reported = False
+        self.unaccepted_reported = set()
 
     def snapshot(self, ex):
-        snap = {"pending": [r.create_id for r in ex._pending_epr_responses], "queues": {}, "units": {}}
+        for r in ex._pending_epr_responses:
+            if r.create_id not in self.known_uids and not self.foreign_reported:
+                self.foreign_reported = True
+                self.bad("a response delivered to ANOTHER executor instance is in this executor's pending list",
+                         uid=r.create_id)
+        snap = {"pending": [r.create_id for r in ex._pending_epr_responses if r.create_id in self.known_uids],
+                "queues": {}, "units": {}}
+        # every outstanding create request was accepted by the network stack (`put` returned)
+        accepted = ex.network_stack.requests
+        for (remote, purpose), lst in ex._epr_create_requests.items():
+            for e in lst:
+                if not any(e.request is a for a in accepted) and id(e) not in self.unaccepted_reported:
+                    self.unaccepted_reported.add(id(e))
+                    self.bad("a create request the network stack never accepted is outstanding",
+                             key=(remote, purpose, True), pairs=e.tot_pairs)
         for creator, d in ((True, ex._epr_create_requests), (False, ex._epr_recv_requests)):
             for (remote, purpose), lst in d.items():
                 key = (remote, purpose, creator)
@@ -515,6 +596,8 @@ class Oracle:
     def quiescent(self, ex, resp_by_uid):
         per_key_pending = {}
         for r in ex._pending_epr_responses:
+            if r.create_id not in resp_by_uid:
+                continue
             spec = resp_by_uid[r.create_id]
             key = spec.key()
             per_key_pending.setdefault(key, []).append(spec)
@@ -687,30 +770,44 @@ class Oracle:
         return now
 
 
-def replay_real(sc, toks, executor_factory=new_executor):
-    """Returns (steps, oracle). steps: list of dicts {tok, acts (model actions), obs (canonical real
-    state) | raised, wait (for a wait instruction: did it block)}; tokens that are not enabled are
-    skipped (not recorded)."""
-    ex = executor_factory()
-    for app, n in sc.apps.items():
-        ex.init_new_application(app, n)
-    init_acts = [{"a": "initapp", "app": app, "n": n} for app, n in sc.apps.items()]
-    subs = [parse_text_subroutine(sp.text()) for sp in sc.subs]
-    for sp, s in zip(sc.subs, subs):
-        assert len(s.instructions) == len(sp.lines), "harness: text/instruction count mismatch"
-    gens = {}        # sub index -> generator
-    sid = {}         # sub index -> executor subroutine id
-    pc = {}          # sub index -> index of the instruction the generator is about to run / sits in
-    state = {}       # sub index -> "pre" | "wait" | "done"
-    current = {}     # app -> sub index that may not be pre-empted
-    uid2idx = {}
-    resp_by_uid = {r.uid: r for r in sc.resps}
-    oracle = Oracle(sc)
-    steps = []
-    nstarted = 0
-    delivered = 0
-    snap = oracle.snapshot(ex)
-    for tok in toks:
+class Replayer:
+    """One scenario on one real executor, driven token by token. `steps`: list of dicts {tok, acts (model
+    actions), obs (canonical real state) | raised, wait (for a wait instruction: did it block)}; tokens
+    that are not enabled are skipped (not recorded)."""
+
+    def __init__(self, sc, ex=None):
+        self.sc = sc
+        self.ex = ex if ex is not None else new_executor()
+        for app, n in sc.apps.items():
+            self.ex.init_new_application(app, n)
+        self.init_acts = [{"a": "initapp", "app": app, "n": n} for app, n in sc.apps.items()]
+        self.subs = [parse_text_subroutine(sp.text()) for sp in sc.subs]
+        for sp, s in zip(sc.subs, self.subs):
+            assert len(s.instructions) == len(sp.lines), "harness: text/instruction count mismatch"
+        self.gens = {}        # sub index -> generator
+        self.sid = {}         # sub index -> executor subroutine id
+        self.pc = {}          # sub index -> index of the instruction the generator is about to run / sits in
+        self.state = {}       # sub index -> "pre" | "wait" | "done" | "dead"
+        self.current = {}     # app -> sub index that may not be pre-empted
+        self.uid2idx = {}
+        self.resp_by_uid = {r.uid: r for r in sc.resps}
+        self.oracle = Oracle(sc)
+        self.steps = []
+        self.nstarted = 0
+        self.delivered = 0
+        if self.ex._pending_epr_responses or any(self.ex._epr_create_requests.values()) or \
+                any(self.ex._epr_recv_requests.values()):
+            self.oracle.bad("a new Executor instance starts with EPR bookkeeping state of another instance",
+                            pending=len(self.ex._pending_epr_responses))
+            self.oracle.foreign_reported = True
+        self.snap = self.oracle.snapshot(self.ex)
+        self.stopped = False
+
+    def step(self, tok):
+        if self.stopped:
+            return
+        sc, ex = self.sc, self.ex
+        gens, sid, pc, state, current = self.gens, self.sid, self.pc, self.state, self.current
         acts = []
         waited = None
         rec = {"tok": list(tok)}
@@ -719,22 +816,28 @@ def replay_real(sc, toks, executor_factory=new_executor):
             if tok[0] == "s":
                 i = tok[1]
                 sp = sc.subs[i]
-                if state.get(i) == "done":
-                    continue
+                if state.get(i) in ("done", "dead"):
+                    return
                 cur = current.get(sp.app)
                 if cur is not None and cur != i and state.get(cur) == "pre":
-                    continue      # same application: switch only at waits
+                    return      # same application: switch only at waits
                 current[sp.app] = i
+                rejected = False
                 if i not in gens:
-                    gens[i] = ex.execute_subroutine(subs[i])
-                    sid[i] = nstarted
-                    nstarted += 1
+                    gens[i] = ex.execute_subroutine(self.subs[i])
+                    sid[i] = self.nstarted
+                    self.nstarted += 1
                     pc[i] = 0
                     acts.append({"a": "startsub", "sub": sid[i], "app": sp.app})
                     if not sp.lines:
                         acts.append({"a": "endsub", "sub": sid[i]})
                 else:
                     act = dict(sp.lines[pc[i]][1])
+                    if act["a"] == "rejected":
+                        # fault injection: the network stack raises at its next put / get_purpose_id
+                        ex.network_stack.fail_next = act["where"]
+                        act = {"a": "rejected"}
+                        rejected = True
                     if act["a"] != "nop":
                         act["sub"] = sid[i]
                     acts.append(act)
@@ -742,7 +845,17 @@ def replay_real(sc, toks, executor_factory=new_executor):
                     y = next(gens[i])
                 except StopIteration:
                     y = "done"
-                if y == "wait":
+                except InjectedFault:
+                    if not rejected:
+                        raise
+                    y = "dead"
+                if rejected and y != "dead":
+                    raise RuntimeError("harness: the injected network-stack fault did not surface")
+                if y == "dead":
+                    # the subroutine died inside the instruction; it stays registered (never cleared)
+                    state[i] = "dead"
+                    current[sp.app] = None
+                elif y == "wait":
                     state[i] = "wait"
                     rec["wait"] = True
                 else:
@@ -759,10 +872,10 @@ def replay_real(sc, toks, executor_factory=new_executor):
                         current[sp.app] = None
             elif tok[0] == "d":
                 r = sc.resps[tok[1]]
-                if r.uid in uid2idx:
-                    continue
-                uid2idx[r.uid] = delivered
-                delivered += 1
+                if r.uid in self.uid2idx:
+                    return
+                self.uid2idx[r.uid] = self.delivered
+                self.delivered += 1
                 acts.append(r.action())
                 ex._handle_epr_response(r.real())
             else:
@@ -773,12 +886,43 @@ def replay_real(sc, toks, executor_factory=new_executor):
         rec["acts"] = acts
         if raised is not None:
             rec["raised"] = raised
-            steps.append(rec)
+            self.steps.append(rec)
+            self.stopped = True
+            return
+        rec["obs"] = canon_real(ex, self.uid2idx)
+        self.snap = self.oracle.after(ex, self.snap, tok, self.resp_by_uid, waited)
+        self.steps.append(rec)
+
+
+def replay_real(sc, toks, executor_factory=new_executor):
+    """Returns (init_acts, steps, oracle)."""
+    rp = Replayer(sc, executor_factory())
+    for tok in toks:
+        rp.step(tok)
+        if rp.stopped:
             break
-        rec["obs"] = canon_real(ex, uid2idx)
-        snap = oracle.after(ex, snap, tok, resp_by_uid, waited)
-        steps.append(rec)
-    return init_acts, steps, oracle
+    return rp.init_acts, rp.steps, rp.oracle
+
+
+def replay_two(scs, toks):
+    """Two executors (two nodes) in ONE process, their schedules interleaved: toks = [(node index, tok)].
+    Returns the two Replayers."""
+    SharedMemoryManager.reset_memories()
+    rps = [Replayer(sc, new_executor(name="verif-node-%d" % k, node_id=NODE_ID, reset=False))
+           for k, sc in enumerate(scs)]
+    for k, tok in toks:
+        rps[k].step(tuple(tok))
+    return rps
+
+
+def interleave(rng, toks_a, toks_b):
+    out, a, b = [], list(toks_a), list(toks_b)
+    while a or b:
+        if a and (not b or rng.random() < 0.5):
+            out.append((0, a.pop(0)))
+        else:
+            out.append((1, b.pop(0)))
+    return out
 
 
 def compare_with_model(driver_out, init_acts, steps):
@@ -871,7 +1015,9 @@ class InProcConnection(BaseNetQASMConnection):
                             self.stuck = True
                             break
         elif isinstance(msg, StopAppMessage):
-            pass
+            out = ex.stop_application(app_id=msg.app_id)
+            if out is not None:
+                list(out)
 
 
 def fresh_world():
@@ -1363,4 +1509,86 @@ def run_hw_case(c, pair_of_handle=None):
                 for f, v in zip(info._fields, info):
                     out["checks"].append(("entanglement_info.%s of returned qubit %d (virtual %d, holds pair %d)"
                                           % (f, i, q.qubit_id, poh[i]), v.value, fld(resps[poh[i]], f)))
+    return out
+
+
+# ---------------------------------------------------------------------- C11: API objects reused across connections
+# ONE EPRSocket object used on several connections, successively or alive at the same time, while the
+# network places the remote party on different nodes (DebugConnection.node_ids) for each connection.
+
+
+def gen_reuse_case(rng):
+    nph = rng.choice([2, 2, 3])
+    phases = []
+    for k in range(nph):
+        phases.append({"remote": rng.choice([1, 2]), "tp": rng.choice(["M", "K"]), "role": rng.choice(["create", "create", "recv"]),
+                       "number": rng.randint(1, 2), "close_before_next": rng.random() < 0.5})
+    if all(p["remote"] == phases[0]["remote"] for p in phases):
+        phases[-1]["remote"] = 3 - phases[0]["remote"]
+    return {"socket": rng.randrange(3), "phases": phases, "rseed": rng.randrange(1 << 30)}
+
+
+def run_reuse_case(c):
+    import random as _random
+    rrng = _random.Random(c["rseed"])
+    ex = fresh_world()
+    sock = EPRSocket(REMOTE_NAME, epr_socket_id=c["socket"], remote_epr_socket_id=c["socket"])
+    out = {"raised": None, "stuck": False, "checks": []}
+    uid = 0
+    try:
+        for k, ph in enumerate(c["phases"]):
+            # the network of this connection places the remote application on node ph["remote"]
+            DebugConnection.node_ids = {NODE_NAME: NODE_ID, REMOTE_NAME: ph["remote"], REMOTE2_NAME: 3 - ph["remote"]}
+            keep = ph["tp"] == "K"
+            resps = []
+            for _ in range(ph["number"]):
+                r = RespSpec(uid, "K" if keep else "M", ph["remote"], purpose_of(ph["remote"], c["socket"]),
+                             1 if ph["role"] == "recv" else 0, 70 + uid, rrng)
+                r.goodness = rrng.randrange(1 << 20)
+                r.form10 = rrng.random() < 0.3
+                resps.append(r)
+                uid += 1
+            todo = list(resps)
+
+            def responder(ex_, todo=todo):
+                if not todo:
+                    return False
+                ex_._handle_epr_response(todo.pop(0).real())
+                return True
+
+            nreq = len(ex.network_stack.requests)
+            conn = InProcConnection(ex, responder, epr_sockets=[sock], max_qubits=4)
+            if ph["role"] == "create":
+                if keep:
+                    qubits, handles = sock.create_keep_with_info(number=ph["number"])
+                else:
+                    handles = sock.create_measure(number=ph["number"])
+            else:
+                if keep:
+                    qubits, handles = sock.recv_keep_with_info(number=ph["number"], expect_phi_plus=False)
+                else:
+                    handles = sock.recv_measure(number=ph["number"], expect_phi_plus=False)
+            out["checks"].append(("connection %d: remote node id of the socket" % k, sock.remote_node_id, ph["remote"]))
+            conn.flush()
+            if conn.stuck:
+                out["stuck"] = True
+                out["checks"].append(("connection %d: request completes" % k, "never", "completes"))
+                return out
+            if ph["role"] == "create":
+                got = [(r.remote_node_id, r.purpose_id, r.number) for r in ex.network_stack.requests[nreq:]]
+                out["checks"].append(("connection %d: (remote node, purpose, pairs) received by the stack" % k, got,
+                                      [(ph["remote"], purpose_of(ph["remote"], c["socket"]), ph["number"])]))
+            for i, h in enumerate(handles):
+                want = resps[i].native()
+                out["checks"].append(("connection %d: generation_duration of pair %d" % (k, i),
+                                      h.generation_duration.value, want.goodness))
+                out["checks"].append(("connection %d: remote_node_id of pair %d" % (k, i),
+                                      h.remote_node_id.value, want.remote_node_id))
+            if ph["close_before_next"]:
+                if keep:
+                    for q in qubits:
+                        q.free()
+                conn.close()
+    except Exception as e:
+        out["raised"] = "%s: %s" % (type(e).__name__, e)
     return out
